@@ -54,7 +54,18 @@ pub fn with_entropy<T: Send + 'static>(
         .name("replica".into())
         .spawn(move || {
             ENTROPY.with(|e| e.set(Some(entropy)));
+            // heap perturbation: a replica-specific pattern of live allocations, so that twins with different
+            // entropy also see different allocation addresses (not controlled, only varied; C05 names them)
+            let mut pad: Vec<Vec<u8>> = Vec::new();
+            let mut x = entropy as u64 | 1;
+            for _ in 0..((entropy >> 64) as u64 % 7) {
+                x ^= x << 13;
+                x ^= x >> 7;
+                x ^= x << 17;
+                pad.push(vec![0u8; 16 + (x % 4000) as usize]);
+            }
             let r = f();
+            drop(pad);
             let calls = CALLS.with(|c| c.get());
             (r, calls)
         })
